@@ -122,7 +122,11 @@ func (t *Metadata) CreateDocumentMetadata(rm *protocol.ResolutionModel, info pro
 	return docMetadata, nil
 }
 
-func sortOperations(ops []*operation.AnchoredOperation) {
+// sortOperations returns the operations in anchoring order. It sorts a copy: the applier hands one list on to every
+// resolution model it derives from a state.
+func sortOperations(operations []*operation.AnchoredOperation) []*operation.AnchoredOperation {
+	ops := append([]*operation.AnchoredOperation(nil), operations...)
+
 	sort.Slice(ops, func(i, j int) bool {
 		if ops[i].TransactionTime != ops[j].TransactionTime {
 			return ops[i].TransactionTime < ops[j].TransactionTime
@@ -130,11 +134,13 @@ func sortOperations(ops []*operation.AnchoredOperation) {
 
 		return ops[i].TransactionNumber < ops[j].TransactionNumber
 	})
+
+	return ops
 }
 
 // remove duplicate published operations and then sort them by transaction (anchoring) time.
-func getPublishedOperations(ops []*operation.AnchoredOperation) []*PublishedOperation {
-	sortOperations(ops)
+func getPublishedOperations(operations []*operation.AnchoredOperation) []*PublishedOperation {
+	ops := sortOperations(operations)
 
 	uniqueOps := make(map[string]bool)
 
@@ -163,8 +169,8 @@ func getPublishedOperations(ops []*operation.AnchoredOperation) []*PublishedOper
 }
 
 // sort unpublished operations by request time.
-func getUnpublishedOperations(ops []*operation.AnchoredOperation) []*UnpublishedOperation {
-	sortOperations(ops)
+func getUnpublishedOperations(operations []*operation.AnchoredOperation) []*UnpublishedOperation {
+	ops := sortOperations(operations)
 
 	unpublishedOps := make([]*UnpublishedOperation, len(ops))
 
